@@ -91,6 +91,9 @@ def play_history(bins, beh, n, hist, rng):
                 if point == "sigkill":
                     steps.append({"op": "touch", "path": "ready-%d-%s" % (rno, t)})
                     steps.append({"op": "sleep", "ms": 30000})
+                if h.get("observe"):
+                    steps.append({"op": "touch", "path": "ready-%d-%s" % (rno, t)})
+                    steps.append({"op": "wait", "paths": ["go-%d" % rno], "timeout_ms": 30000})
                 steps.append({"op": "exit", "code": code})
                 fx.add_cmd(t, cmd, steps, ext=".sh")
             args = ["run", "-c", cmd, "-t"] + tsel
@@ -99,12 +102,31 @@ def play_history(bins, beh, n, hist, rng):
                 exp += [(t, "out"), (t, "err")]
             fx.reset_helper()
             if h["kind"] == "complete":
-                hook_file = os.path.join(fx.root, "hooks-%d.ndjson" % rno)
-                res = fx.monorail(args, env={"MONORAIL_VERIF_TRACE": hook_file} if rno <= 2 else None)
-                if rno <= 2 and os.path.exists(hook_file):
-                    with open(hook_file) as hf:
-                        hooks = sorted((json.loads(l) for l in hf if l.strip()), key=lambda e: e["seq"])
-                    ev.append({"ev": "_hooks", "run": rno, "points": [{"point": x["point"]} for x in hooks]})
+                if h.get("observe"):
+                    # a reader in another terminal while the run is executing (no fault involved): it must still be served
+                    # the most recent COMPLETED run
+                    pr = fx.spawn(args)
+                    deadline = time.time() + 20
+                    while (not any(os.path.exists(fx.marker("ready-%d-%s" % (rno, t))) for t in tsel)
+                           and time.time() < deadline and pr.poll() is None):
+                        time.sleep(0.005)
+                    rr = fx.monorail(["result", "show"])
+                    rn = -1
+                    if rr["rc"] == 0 and rr["out"]:
+                        m = re.match(r"cmd(\d+)$", (rr["out"].get("results") or [{}])[0].get("command", ""))
+                        rn = int(m.group(1)) if m else -1
+                    ev.append({"ev": "inflight_result_show", "rc": rr["rc"] if rr["rc"] is not None else -9, "run": rn, "fault": False})
+                    with open(fx.marker("go-%d" % rno), "w") as gf:
+                        gf.write("go")
+                    so, se = pr.communicate(timeout=120)
+                    res = fx._result(pr.returncode, so, se)
+                else:
+                    hook_file = os.path.join(fx.root, "hooks-%d.ndjson" % rno)
+                    res = fx.monorail(args, env={"MONORAIL_VERIF_TRACE": hook_file} if rno <= 2 else None)
+                    if rno <= 2 and os.path.exists(hook_file):
+                        with open(hook_file) as hf:
+                            hooks = sorted((json.loads(l) for l in hf if l.strip()), key=lambda e: e["seq"])
+                        ev.append({"ev": "_hooks", "run": rno, "points": [{"point": x["point"]} for x in hooks]})
                 ok = res["rc"] in (0, 1) and isinstance(res["out"], dict) and "results" in res["out"]
                 slot = -1
                 if ok:
@@ -141,7 +163,7 @@ def play_history(bins, beh, n, hist, rng):
                     if rr["rc"] == 0 and rr["out"]:
                         m = re.match(r"cmd(\d+)$", (rr["out"].get("results") or [{}])[0].get("command", ""))
                         rn = int(m.group(1)) if m else -1
-                    ev.append({"ev": "inflight_result_show", "rc": rr["rc"] if rr["rc"] is not None else -9, "run": rn})
+                    ev.append({"ev": "inflight_result_show", "rc": rr["rc"] if rr["rc"] is not None else -9, "run": rn, "fault": True})
                     fx.kill_group(p)
                     p.wait()
                     rc = p.returncode
@@ -210,6 +232,9 @@ def histories(chk, tier, rng, pid):
             if pid == "C12" or x < 0.55:
                 if rng.random() < 0.06:
                     h.append({"kind": "out_delete", "n": 0})
+                if rng.random() < 0.2:
+                    h.append({"kind": "complete", "n": 5, "observe": True})
+                    continue
                 h.append({"kind": "complete", "n": 5, "fail": rng.random() < 0.3} if (rng.random() < 0.9 or n == 1) else {"kind": "abort", "n": 2})
             else:
                 cnt = rng.randint(0, 5)
